@@ -9,10 +9,10 @@ T = {
  "C01": ("exploration", "5/C01", "reference-model monitor: generated programs run on the real API, JSON file read back, parser output vs interpreter ground truth",
          "Holds on the generated logging programs explored (thousands per run, all API styles, remote sub-tasks, BaseException failures, three file modes); a runtime oracle, not a proof.",
          "Trusts the interpreter's ground-truth bookkeeping and the stdlib json decoder; values limited to the JSON-native domain; timestamps/uuids not compared."),
- "C02": ("exploration", "5/C02", "offline tape checker (uniqueness, 1..n contiguity, allocation order, end-is-last) under destination fault masks, await-point and thread schedules",
+ "C02": ("exploration", "5/C02", "offline tape checker (uniqueness, 1..n contiguity, allocation order, end-is-last) under destination fault masks, await-point and thread schedules, chains of destinations that log, and a logging signal handler delivered at every eval-breaker point inside the logging calls (sys.monitoring INSTRUCTION/PY_START events)",
          "Holds on every tape recorded by a healthy destination over the explored programs, fault masks and schedules.",
-         "Programs are well-formed (no logging into finished actions; each id continued once); order rule applied to first use of a position."),
- "C03": ("exploration", "5/C03", "exactly-once / truthful-end tape checker plus exception identity at the with-boundary, extractor registrations enumerated along MROs",
+         "Programs are well-formed (no logging into finished actions; each id continued once); order rule applied to first use of a position, and not judged in the signal-handler part."),
+ "C03": ("exploration", "5/C03", "exactly-once / truthful-end tape checker plus exception identity at the with-boundary, extractor registrations enumerated along MROs and made concurrently under the line-granular scheduler (all 1-preemption schedules, switch points also after call instructions)",
          "Holds for every (exception class x nesting depth x style) of the matrix and the random programs explored, including BaseException classes and raising extractors.",
          "Extractors return dicts and raise Exception subclasses; fork-per-case isolates the global extractor registry."),
  "C04": ("exploration", "5/C04", "current_action() probes against a shadow stack before/inside/after every scoping construct (also on other threads, in forked children and in hand-written scenarios); parsed tape vs ground truth",
@@ -39,18 +39,18 @@ T = {
  "C11": ("fault_enumeration", "5/C11", "post-mortem checker on the file left by a SIGKILLed child vs its acknowledgements; crash injected at every file operation phase",
          "Complete enumeration of (file operation, phase) crash points per program plus random external SIGKILLs; process death only.",
          "Kernel keeps written data of a dead process; power loss out of scope."),
- "C12": ("exploration", "5/C12", "sequential reference model of the destination registry over random op histories; no-loss/no-dup checker for the hand-over under line-granular schedules",
+ "C12": ("exploration", "5/C12", "sequential reference model of the destination registry over random op histories; no-loss/no-dup checker for the hand-over under line-granular schedules (switch points also between a call instruction and the use of its result; arbitrarily slow replay in logical time); a logging signal handler delivered at every eval-breaker point of the start-up phase and the first add_destinations",
          "Holds on the explored histories and on all 1-preemption schedules of logger thread(s) vs first add_destinations.",
          "CPython statement granularity; the hand-over race found here is fixed in /repo (KNOWN_FINDINGS: fixed); equal-comparing destination objects are never passed to remove_destination."),
  "C13": ("fault_enumeration", "5/C13", "serializer call counters + delivered-value check + caller-data snapshot diff + report placement check, failing-serializer subsets enumerated by mask",
          "Holds on every (message kind x serializer kinds x failing subset / missing field) case explored.",
-         "Serializers raise Exception subclasses; Logger.write with explicit serializer uses the library's own serializer object."),
+         "Serializers raise Exception subclasses or, in one failing case in eight, KeyboardInterrupt/SystemExit/GeneratorExit/an application BaseException class; Logger.write with explicit serializer uses the library's own serializer object."),
  "C14": ("exploration", "5/C14", "independent acceptance predicate vs MemoryLogger.validate()/check_for_errors(); default-logger identity and behavioural probe after decorated unittest runs",
          "Holds on all conforming logs and single-point deviations generated, and on all (outcome x assertion x body x decorator) test runs.",
          "'Reported' = an exception from validate()/check_for_errors(); unittest semantics for cleanups."),
- "C15": ("exploration", "5/C15", "context probes inside generator bodies and in drivers; transparency differential vs the undecorated generator",
+ "C15": ("exploration", "5/C15", "context probes inside generator bodies and in drivers; transparency differential vs the undecorated generator; clean-up probes of generators abandoned in reference cycles and finalised by the cyclic collector from other contexts",
          "Holds on the explored bodies x driver scripts (send/throw/close, interleaved generators, surrounding actions).",
-         "Twisted absent: the generator wrapper itself is monitored, not inlineCallbacks on top."),
+         "Twisted absent: the generator wrapper itself is monitored, not inlineCallbacks on top. One known finding (gc-finalises-generator-before-wrapper) is attributed by input class."),
  "C16": ("exploration", "5/C16", "invariant evaluated under the logger's own lock at every release + final-state alignment check under line-granular schedules (incl. a slow lock holder with logical lock timeouts, the production Logger, two json_default functions without orjson); torn-line checker on a shared file under stress",
          "Holds on all 1-preemption schedules at statement granularity of the output layer plus sampled deeper ones, and on the stress runs.",
          "CPython statement granularity; intra-statement atomicity is CPython's."),
